@@ -184,6 +184,37 @@ func fixturesMain() int {
 		{"BoundsWrapBad", false}, {"BoundsWrapGood", true}, {"BoundsDivGood", true}, {"GuardGood", true}, {"GuardBad", false}, {"GuardAndGood", true}} {
 		expect("A8 prover "+c.name, proveAll(fn(c.name)), c.want)
 	}
+	// source normalisation, phi pinning, lock-step induction, canonical sums
+	for _, c := range []struct {
+		name string
+		want bool
+	}{{"NormCheckedIndex", true}, {"NormCheckedIndexBad", false}, {"NormLockStep", true}} {
+		expect("normalisation + prover "+c.name, proveAll(fn(c.name)), c.want)
+	}
+	{
+		inl := 0
+		for _, n := range w.Inlined {
+			if strings.Contains(n, "inlCheckIndex") || strings.Contains(n, "inlEnds") {
+				inl++
+			}
+		}
+		expect("normalisation inlined the new helpers", inl >= 3, true)
+		ps, _ := Paths(fn("NormPredicate"), PathOpts{})
+		lits := map[string]bool{}
+		rets := map[string]bool{}
+		for _, p := range ps {
+			for _, l := range p.Lits() {
+				lits[l] = true
+			}
+			if rt := p.Ret(); rt != nil {
+				rets[Term(rt.Results[0])] = true
+			}
+		}
+		expect("normalised predicate: paths carry the helper's comparisons", lits["p0 == 1327"] && lits["p0 <= 1299"] && lits["p0 >= 2100"] && lits["p0 < 2100"], true)
+		expect("normalised predicate: four paths, results 0 and 1", len(ps) == 4 && rets["0"] && rets["1"] && len(rets) == 2, true)
+		ra, rb := returnsOf(fn("NormSumA")), returnsOf(fn("NormSumB"))
+		expect("canonical sums", len(ra) == 1 && len(rb) == 1 && Term(ra[0].Results[0]) == Term(rb[0].Results[0]) && Term(ra[0].Results[0]) == "(p0 + p1 + p2)", true)
+	}
 	// A9
 	for _, c := range []struct {
 		name     string
